@@ -401,7 +401,17 @@ func c05Element(c *ev.Collector, rt *rapid.T) {
 	var family string
 	draw := func() elem { return elem{} }
 	var decode func(b []byte) (util.Message, error)
-	switch gen.Pick(rt, "family", 5) {
+	switch gen.Pick(rt, "family", 6) {
+	case 5:
+		// stand-alone kinds with both codecs that the other families reach only embedded: stats request bodies,
+		// port description, TLV map, hello element, header, buffer (receiver: a fresh value of the same type)
+		family = "small"
+		var last util.Message
+		draw = func() elem { v, k, _ := smallKind(rt, g); last = v; return elem{v, k} }
+		decode = func(b []byte) (util.Message, error) {
+			d := freshSmall(last0(&last))
+			return d, d.UnmarshalBinary(b)
+		}
 	case 0, 1:
 		family = "action"
 		draw = func() elem { a, _, n := g.Action(); return elem{a, n} }
@@ -420,6 +430,13 @@ func c05Element(c *ev.Collector, rt *rapid.T) {
 		decode = func(b []byte) (util.Message, error) { k := new(of.Bucket); return k, k.UnmarshalBinary(b) }
 	}
 	e := draw()
+	first := e.m
+	if family == "small" {
+		decode = func(b []byte) (util.Message, error) {
+			d := freshSmall(first)
+			return d, d.UnmarshalBinary(b)
+		}
+	}
 	what := family + "." + e.name
 	b, fr, msg := safeMarshal(e.m)
 	if fr != "" {
@@ -428,7 +445,10 @@ func c05Element(c *ev.Collector, rt *rapid.T) {
 	}
 	extent := len(b)
 	follow := ""
-	if rapid.Bool().Draw(rt, "followed") {
+	// raw buffers and bare element headers have no extent of their own: they are whatever slice they are given
+	_, isBuf := e.m.(*util.Buffer)
+	_, isHdr := e.m.(*common.HelloElemHeader)
+	if !isBuf && !isHdr && rapid.Bool().Draw(rt, "followed") {
 		w := draw()
 		wb, fr2, _ := safeMarshal(w.m)
 		if fr2 == "" {
@@ -465,3 +485,27 @@ func c05Element(c *ev.Collector, rt *rapid.T) {
 }
 
 var _ = common.Header{}
+
+func last0(p *util.Message) util.Message { return *p }
+
+// freshSmall allocates the receiver for a stand-alone small kind the way a
+// caller does: through the constructor where one exists, else new(T).
+func freshSmall(v util.Message) util.Message {
+	switch v.(type) {
+	case *of.FlowStatsRequest:
+		return of.NewFlowStatsRequest()
+	case *of.AggregateStatsRequest:
+		return of.NewAggregateStatsRequest()
+	case *of.PortStatsRequest:
+		return of.NewPortStatsRequest()
+	case *of.QueueStatsRequest:
+		return of.NewQueueStatsRequest()
+	case *of.PhyPort:
+		return of.NewPhyPort()
+	case *common.HelloElemVersionBitmap:
+		return common.NewHelloElemVersionBitmap()
+	case *common.HelloElemHeader:
+		return common.NewHelloElemHeader()
+	}
+	return reflect.New(reflect.TypeOf(v).Elem()).Interface().(util.Message)
+}
